@@ -14,7 +14,7 @@ use crate::peers::{Act, HttpPeer, Script, Seen};
 use crate::runner::{violation, RunCtx, RunReport, Stats, Verdict};
 use crate::tlspeer::{self, ConnectProxy, ProxyLog, TlsLog, TlsPeer};
 
-pub const CELLS: u64 = 4 * 2 * 2 * 2 * 3 * 3 * 3;
+pub const CELLS: u64 = 4 * 2 * 2 * 2 * 3 * 3 * 4;
 
 #[derive(Clone, Copy, Debug, PartialEq, Eq)]
 enum Chain {
@@ -36,6 +36,9 @@ enum Place {
     Session,
     Request,
     Sibling,
+    /// the session waives both checks; the request sets both flags explicitly to the cell's values
+    /// (an explicit `false` on the request must win over the session's `true`)
+    Override,
 }
 
 const OTHER_CA_PEM: &str = include_str!("../../../certs/otherca.pem");
@@ -83,7 +86,7 @@ pub fn scenario(g: &mut G, ctx: &RunCtx) -> RunReport {
     let root = [Root::None, Root::Ours, Root::OtherAfterDecoy][take(3) as usize];
     let root_added = root != Root::None;
     let route = [Route::Direct, Route::ViaConnect, Route::HttpsProxy][take(3) as usize];
-    let place = [Place::Session, Place::Request, Place::Sibling][take(3) as usize];
+    let place = [Place::Session, Place::Request, Place::Sibling, Place::Override][take(4) as usize];
     let fixture = format!(
         "{}{}",
         match chain {
@@ -188,6 +191,10 @@ pub fn scenario(g: &mut G, ctx: &RunCtx) -> RunReport {
         if !decoy_ok {
             return Err("decoy-session-failed".to_string());
         }
+        if place == Place::Override {
+            session.danger_accept_invalid_certs(true);
+            session.danger_accept_invalid_hostnames(true);
+        }
         if place == Place::Session {
             session.danger_accept_invalid_certs(accept_certs);
             session.danger_accept_invalid_hostnames(accept_hosts);
@@ -204,7 +211,7 @@ pub fn scenario(g: &mut G, ctx: &RunCtx) -> RunReport {
             let _prepared = sib.prepare();
         }
         let mut rb = session.get(url).header("X-Marker", "request-under-test");
-        if place == Place::Request {
+        if place == Place::Request || place == Place::Override {
             rb = rb.danger_accept_invalid_certs(accept_certs).danger_accept_invalid_hostnames(accept_hosts);
             if root_added {
                 rb = rb.add_root_certificate(my_root());
